@@ -1,0 +1,195 @@
+//! Verification hook for property C04 (read-only, cargo feature `verif-hooks`).
+//!
+//! * the matcher NFAs of the two production automata **before** `MatcherAutomata::new` merges
+//!   them (dump of the private representation through `NFA::verif_dump`);
+//! * the two compiled production automata with their tag sets in structured form
+//!   (breadth first through the public `DFA` API, start = 0, same discovery order as
+//!   `verif_c03::dump_dfa`);
+//! * the private `Matcher::decode` bodies by matcher index and the private payload helpers
+//!   `parse_color` and `keyboard_decode_key`;
+//! * the literal key table: every alternative of `basic_events_nfa()` as (bytes, event).
+//!
+//! Nothing here changes behaviour; with the feature off this file is not compiled.
+use super::{MatcherAutomata, MatcherTag, TTY_COMMAND_AUTOMATA, TTY_EVENT_AUTOMATA};
+use crate::{
+    KeyName, RGBA, TerminalCommand,
+    automata::{DFA, DFAState, verif_c15::VerifNfaDump},
+    terminal::TerminalEvent,
+};
+use either::Either;
+use std::collections::{BTreeMap, VecDeque};
+
+/// Tag of a production automaton in structured form
+#[derive(Debug, Clone, PartialEq, Eq)]
+pub enum VerifTag<T> {
+    /// the automaton already carries the item (literal key table)
+    Item(T),
+    /// index of the matcher whose `decode` is to be called
+    Matcher(usize),
+}
+
+/// One matcher of a production automaton: `{:?}` of the matcher, whether `matcher()` returned
+/// `Either::Left` (item produced by `decode`) and the dump of its NFA
+pub struct VerifMatcher<T> {
+    pub name: String,
+    pub parsed: bool,
+    pub nfa: VerifNfaDump<T>,
+}
+
+fn matchers_of<T: Clone + Ord>(automata: &MatcherAutomata<T>) -> Vec<VerifMatcher<T>> {
+    automata
+        .matchers
+        .iter()
+        .map(|matcher| {
+            let name = format!("{:?}", matcher);
+            match matcher.matcher() {
+                Either::Left(nfa) => VerifMatcher {
+                    name,
+                    parsed: true,
+                    nfa: nfa.tags_map(|void| -> T { match void {} }).verif_dump(),
+                },
+                Either::Right(nfa) => VerifMatcher {
+                    name,
+                    parsed: false,
+                    nfa: nfa.verif_dump(),
+                },
+            }
+        })
+        .collect()
+}
+
+/// Matcher NFAs of `TTY_EVENT_AUTOMATA` in registration order, before merging
+pub fn matcher_nfas() -> Vec<VerifMatcher<TerminalEvent>> {
+    matchers_of(&TTY_EVENT_AUTOMATA)
+}
+
+/// Matcher NFAs of `TTY_COMMAND_AUTOMATA` in registration order, before merging
+pub fn command_matcher_nfas() -> Vec<VerifMatcher<TerminalCommand>> {
+    matchers_of(&TTY_COMMAND_AUTOMATA)
+}
+
+/// One state of a compiled production automaton
+#[derive(Debug, Clone)]
+pub struct VerifDfaState<T> {
+    pub accepting: bool,
+    pub terminal: bool,
+    /// all tags in the order of the tag set (the decoder picks the first)
+    pub tags: Vec<VerifTag<T>>,
+    /// outgoing edges `(symbol, target)` in symbol order
+    pub edges: Vec<(u8, usize)>,
+}
+
+fn dump_dfa<T: Clone>(dfa: &DFA<MatcherTag<T>>) -> Vec<VerifDfaState<T>> {
+    let mut ids: BTreeMap<DFAState, usize> = BTreeMap::new();
+    let mut queue = VecDeque::new();
+    let mut out = Vec::new();
+    ids.insert(dfa.start(), 0);
+    queue.push_back(dfa.start());
+    while let Some(state) = queue.pop_front() {
+        let info = dfa.info(state);
+        let mut edges = Vec::new();
+        for symbol in 0..=u8::MAX {
+            if let Some(next) = dfa.transition(state, symbol) {
+                let next_id = match ids.get(&next) {
+                    Some(id) => *id,
+                    None => {
+                        let id = ids.len();
+                        ids.insert(next, id);
+                        queue.push_back(next);
+                        id
+                    }
+                };
+                edges.push((symbol, next_id));
+            }
+        }
+        out.push(VerifDfaState {
+            accepting: info.is_accepting,
+            terminal: info.is_terminal,
+            tags: info
+                .tags
+                .iter()
+                .map(|tag| match tag {
+                    MatcherTag::Item(item) => VerifTag::Item(item.clone()),
+                    MatcherTag::Matcher(index) => VerifTag::Matcher(*index),
+                })
+                .collect(),
+            edges,
+        });
+    }
+    out
+}
+
+/// Automaton of `TTYEventDecoder`
+pub fn event_dfa() -> Vec<VerifDfaState<TerminalEvent>> {
+    dump_dfa(&TTY_EVENT_AUTOMATA.automata)
+}
+
+/// Automaton of `TTYCommandDecoder`
+pub fn command_dfa() -> Vec<VerifDfaState<TerminalCommand>> {
+    dump_dfa(&TTY_COMMAND_AUTOMATA.automata)
+}
+
+/// `Matcher::decode` of the event matcher with the given index
+pub fn matcher_decode(index: usize, data: &[u8]) -> Option<TerminalEvent> {
+    TTY_EVENT_AUTOMATA.matchers[index].decode(data)
+}
+
+/// `Matcher::decode` of the command matcher with the given index
+pub fn command_matcher_decode(index: usize, data: &[u8]) -> Option<TerminalCommand> {
+    TTY_COMMAND_AUTOMATA.matchers[index].decode(data)
+}
+
+/// private `parse_color`
+pub fn parse_color(color: &str) -> Option<RGBA> {
+    super::parse_color(color)
+}
+
+/// private `keyboard_decode_key`
+pub fn keyboard_decode_key(code: usize) -> Option<KeyName> {
+    super::keyboard_decode_key(code)
+}
+
+/// private `numbers_decode`
+pub fn numbers_decode(data: &[u8], sep: u8) -> Vec<usize> {
+    super::numbers_decode(data, sep).collect()
+}
+
+/// private `key_value_decode`
+pub fn key_value_decode(sep: u8, data: &[u8]) -> Vec<(Vec<u8>, Vec<u8>)> {
+    super::key_value_decode(sep, data)
+        .map(|(key, value)| (key.to_vec(), value.to_vec()))
+        .collect()
+}
+
+/// The literal key table: every alternative of `basic_events_nfa()` (a chain of single byte
+/// edges ending in a tagged state) as `(bytes, event)`, in the order of the alternatives
+pub fn key_table() -> Vec<(Vec<u8>, TerminalEvent)> {
+    let dump = super::basic_events_nfa().verif_dump();
+    let mut table = Vec::new();
+    let Some(start) = dump.states.get(dump.start) else {
+        return table;
+    };
+    let mut starts = start.epsilons.clone();
+    // alternatives were merged in order: ids are increasing
+    starts.sort();
+    for mut state_id in starts {
+        let mut bytes = Vec::new();
+        loop {
+            let Some(state) = dump.states.get(state_id) else {
+                break;
+            };
+            if let Some(tag) = &state.tag {
+                table.push((bytes, tag.clone()));
+                break;
+            }
+            match state.edges.as_slice() {
+                [(symbol, next)] => {
+                    bytes.push(*symbol);
+                    state_id = *next;
+                }
+                _ => break,
+            }
+        }
+    }
+    table
+}
